@@ -22,6 +22,7 @@ import (
 const repoDir = "/repo"
 
 var verifDir = "/verif"
+var maxWitPerMsg = 3
 
 // Loaded is one package of /repo (current working tree) with the harness overlay, built to SSA.
 type Loaded struct {
@@ -442,6 +443,7 @@ func RunJob(l *Loaded, job Job, nworkers int, seed int64) *JobResult {
 	}
 	loadMu.Unlock()
 
+	perMsg := map[string]int{}
 	wl := &workList{n: nworkers}
 	wl.cond = sync.NewCond(&wl.mu)
 	wl.items = append(wl.items, []uint64{})
@@ -574,7 +576,8 @@ func RunJob(l *Loaded, job Job, nworkers int, seed int64) *JobResult {
 				case "violation", "panic", "budget":
 					res.NViol++
 					res.Msgs[kind+": "+outcome.Msg]++
-					if len(res.Violations) < 8 {
+					if perMsg[kind+outcome.Msg] < maxWitPerMsg && len(res.Violations) < 40 {
+						perMsg[kind+outcome.Msg]++
 						res.Violations = append(res.Violations, w)
 					}
 				case "known":
